@@ -45,6 +45,10 @@ class CallMixin:
         fr = self.frame
         name = mangle(attr, fr.lexical_class.name if (fr.lexical_class is not None) else None)
         t = self.tag(obj, "getattr")
+        if t != "ref" and attr == "__class__":
+            tt = z3.simplify(z3.IntVal(TYPEBASE) + self.st.type_of_val(obj))
+            self.st.ghost.setdefault("type_terms", []).append(tt)
+            return VRef(tt)
         if t == "str":
             if attr in STR_METHODS:
                 return self.st.register(BoundMethod(BuiltinFn("str." + attr), obj))
